@@ -183,25 +183,30 @@ func c10Run(c *fw.Ctx) {
 	pd := func() *authp.ProviderData {
 		return &authp.ProviderData{ClientID: "cid", ClientSecret: "cs", SessionLifetimeTTL: time.Hour}
 	}
-	gp, err := authp.NewGoogleProvider(pd(), "", "", "", "")
-	if err != nil {
-		panic(explore.HarnessError{Msg: err.Error()})
+	// the providers are built anew for every execution: whatever they remember must come from that execution
+	newGoogle := func(hostedDomain string) *authp.GoogleProvider {
+		g, err := authp.NewGoogleProvider(pd(), "", hostedDomain, "", "")
+		if err != nil {
+			panic(explore.HarnessError{Msg: err.Error()})
+		}
+		g.RedeemURL = &url.URL{Scheme: "https", Host: idp.Addr(), Path: "/oauth2/v4/token"}
+		return g
 	}
-	gp.RedeemURL = &url.URL{Scheme: "https", Host: idp.Addr(), Path: "/oauth2/v4/token"}
-	op, err := authp.NewOktaProvider(pd(), idp.Addr(), "")
-	if err != nil {
-		panic(explore.HarnessError{Msg: err.Error()})
+	newOkta := func() *authp.OktaProvider {
+		o, err := authp.NewOktaProvider(pd(), idp.Addr(), "")
+		if err != nil {
+			panic(explore.HarnessError{Msg: err.Error()})
+		}
+		return o
 	}
-	cp, err := authp.NewAmazonCognitoProvider(pd(), idp.Addr(), "us-east-1", "pool-id", "aws-id", "aws-secret")
-	if err != nil {
-		panic(explore.HarnessError{Msg: err.Error()})
+	newCognito := func() *authp.AmazonCognitoProvider {
+		cg, err := authp.NewAmazonCognitoProvider(pd(), idp.Addr(), "us-east-1", "pool-id", "aws-id", "aws-secret")
+		if err != nil {
+			panic(explore.HarnessError{Msg: err.Error()})
+		}
+		return cg
 	}
 	targets := []string{"google/Redeem", "okta/Redeem", "cognito/Redeem", "okta/callback", "cognito/callback", "google-hosted-domain/Redeem"}
-	ghp, err := authp.NewGoogleProvider(pd(), "", "corp.test", "", "") // a Google provider restricted to a hosted domain
-	if err != nil {
-		panic(explore.HarnessError{Msg: err.Error()})
-	}
-	ghp.RedeemURL = gp.RedeemURL
 	ce := envs.get("e2e-cognito", harness.AuthOpts{EmailDomains: []string{"corp.test"}, RootDomains: []string{"sso.test"}, ProviderType: "cognito"})
 	tStatuses, uStatuses := c10Statuses, []int{200, 401, 500, 429}
 	if c.Thorough() {
@@ -260,13 +265,13 @@ func c10Run(c *fw.Ctx) {
 			}()
 			switch target {
 			case "google-hosted-domain/Redeem":
-				sess, callErr = ghp.Redeem("https://"+harness.AuthHost+"/idp/callback", "the-code")
+				sess, callErr = newGoogle("corp.test").Redeem("https://"+harness.AuthHost+"/idp/callback", "the-code")
 			case "google/Redeem":
-				sess, callErr = gp.Redeem("https://"+harness.AuthHost+"/idp/callback", "the-code")
+				sess, callErr = newGoogle("").Redeem("https://"+harness.AuthHost+"/idp/callback", "the-code")
 			case "okta/Redeem":
-				sess, callErr = op.Redeem("https://"+harness.AuthHost+"/idp/callback", "the-code")
+				sess, callErr = newOkta().Redeem("https://"+harness.AuthHost+"/idp/callback", "the-code")
 			case "cognito/Redeem":
-				sess, callErr = cp.Redeem("https://"+harness.AuthHost+"/idp/callback", "the-code")
+				sess, callErr = newCognito().Redeem("https://"+harness.AuthHost+"/idp/callback", "the-code")
 			case "okta/callback", "cognito/callback":
 				e := e
 				if provider == "cognito" {
